@@ -2,8 +2,9 @@
 # Model of `TypeChecker::typesAreCompatible` (property C11)
 
 Transcription of the case analysis of `typesAreCompatible(ty1, ty2, treatVoidAsAny, ignoreQualifier)`
-(`C/sema/TypeChecker.cpp`) on typedef-free types (the caller resolves `ty1`; a typedef name at `ty2` is replaced by its
-resolved synonym before anything else, which the model assumes done).
+(`C/sema/TypeChecker.cpp`) on typedef-free types (a typedef name at either type is replaced by its resolved synonym before
+anything else, which the model assumes done).  With `ignoreQualifier` the function first strips the qualifiers of `ty2`
+(since repair 'typesAreCompatible looks through … a qualifier on the right'): `unq`, applied at every call.
 -/
 namespace PsycheModel.Compat
 
@@ -27,10 +28,17 @@ inductive TyList where
   | cons (t : Ty) (rest : TyList)
 end
 
+/-- the qualifiers of `ty2` are dropped first when they are to be ignored -/
+def stripQ : Ty → Ty
+  | .qual _ t => stripQ t
+  | t => t
+def unq (iq : Bool) (t : Ty) : Ty := if iq then stripQ t else t
+
 mutual
-def compat : Ty → Ty → (voidAny ignoreQ : Bool) → Bool
-  | .arr e1, .arr e2, va, iq => compat e1 e2 va iq
-  | .arr e1, .ptr r2, va, iq => compat e1 r2 va iq
+/-- the `switch` of the function, entered with `ty2` already stripped by `unq` -/
+def compatCore : Ty → Ty → (voidAny ignoreQ : Bool) → Bool
+  | .arr e1, .arr e2, va, iq => compatCore e1 (unq iq e2) va iq
+  | .arr e1, .ptr r2, va, iq => compatCore e1 (unq iq r2) va iq
   | .arr _, .void, va, _ => va
   | .arr _, _, _, _ => false
   | .basic k1, .basic k2, _, _ => k1 == k2
@@ -39,7 +47,7 @@ def compat : Ty → Ty → (voidAny ignoreQ : Bool) → Bool
   | .basic k1, .qual _ u2, va, iq => if iq then compatBasicUnq k1 u2 va else false
   | .basic _, _, _, _ => false
   | .fn r1 f1 ps1, .fn r2 f2 ps2, va, iq =>
-    if compat r1 r2 false iq then
+    if compatCore r1 (unq iq r2) false iq then
       match f1 with
       | .specifiedAsEmpty => f2 == .specifiedAsEmpty || f2 == .unspecified
       | .unspecified => true
@@ -50,8 +58,8 @@ def compat : Ty → Ty → (voidAny ignoreQ : Bool) → Bool
     else false
   | .fn _ _ _, .void, va, _ => va
   | .fn _ _ _, _, _, _ => false
-  | .ptr r1, .arr e2, va, iq => compat r1 e2 va iq
-  | .ptr r1, .ptr r2, va, iq => compat r1 r2 va iq
+  | .ptr r1, .arr e2, va, iq => compatCore r1 (unq iq e2) va iq
+  | .ptr r1, .ptr r2, va, iq => compatCore r1 (unq iq r2) va iq
   | .ptr _, .void, va, _ => va
   | .ptr _, _, _, _ => false
   | .tag k1 n1, .tag k2 n2, _, _ => k1 == k2 && n1 == n2
@@ -63,13 +71,14 @@ def compat : Ty → Ty → (voidAny ignoreQ : Bool) → Bool
   | .void, .ptr _, va, _ => va
   | .void, .void, _, _ => true
   | .void, .qual _ _, va, _ => va
+  | .void, .tag _ _, va, _ => va
   | .void, _, _, _ => false
   | .qual q1 u1, t2, va, iq =>
-    if iq then compat u1 t2 va iq
+    if iq then compatCore u1 (unq iq t2) va iq
     else
       match t2 with
       | .void => va
-      | .qual q2 u2 => if q1 != q2 then false else compat u1 u2 va iq
+      | .qual q2 u2 => if q1 != q2 then false else compatCore u1 (unq iq u2) va iq
       | _ => false
   | .error, _, _, _ => false
 /-- `typesAreCompatible(basic, unqualifiedType(ty2), voidAny, false)` -/
@@ -81,9 +90,12 @@ def compatBasicUnq (k1 : Nat) : Ty → Bool → Bool
 /-- the parameter loop: same number, pairwise compatible -/
 def compatL : TyList → TyList → Bool → Bool → Bool
   | .nil, .nil, _, _ => true
-  | .cons t1 r1, .cons t2 r2, va, iq => compat t1 t2 va iq && compatL r1 r2 va iq
+  | .cons t1 r1, .cons t2 r2, va, iq => compatCore t1 (unq iq t2) va iq && compatL r1 r2 va iq
   | _, _, _, _ => false
 end
+
+/-- `typesAreCompatible` -/
+def compat (t1 t2 : Ty) (va iq : Bool) : Bool := compatCore t1 (unq iq t2) va iq
 
 mutual
 /-- a type a valid program can have: no error type inside -/
